@@ -11,6 +11,7 @@ Obs == [stored |-> stored, orphans |-> orphans, best |-> best,
         contracts |-> ContractsOf(best),
         maintxs |-> MainTxs(best),
         validbest |-> ValidBest(stored),
+        invalid |-> {b \in stored : ~ValidInCtx(b)},
         submitted |-> pool]
 IsCall(op) == op \in {"deliver", "submit"}
 GInit == Init /\ hist = <<>>
